@@ -83,6 +83,12 @@ func WriteEvidence(path, prop, tier string, seed, runs uint64, workers, distinct
 				cov["unseamed_sources"] = ir["unseamed_sources"]
 				cov["map_range_sites"] = ir["map_range_sites"]
 				cov["readfile_sites"] = ir["readfile_sites"]
+				cov["go_statement_sites"] = ir["go_statement_sites"]
+				if gs, ok := ir["go_statement_sites"].([]interface{}); ok && len(gs) > 0 {
+					cov["goroutine_scheduling"] = "the tree starts goroutines: every compilation ran on ONE processor with seeded hand-overs at loop heads (simhook.Tick -> runtime.Gosched, keyed by run seed, input and tick number), garbage collection off during the call, under a deadlock watchdog and goroutine accounting; to whom the processor passes is the Go run queue's decision, not the simulator's"
+				} else {
+					cov["goroutine_scheduling"] = "the tree contains no go statement: the compiler is single-threaded and is called inline; scheduling is not a source of nondeterminism"
+				}
 			}
 		}
 	}
